@@ -1,7 +1,7 @@
 (** * C15 -- reported propagation metrics equal the instrumentation actually emitted.
     Only statements, each closed by [exact] of a lemma proved elsewhere, with its assumptions. *)
 From Coq Require Import String List NArith Bool.
-From IastRw Require Import Ast Generated Config Model P_Telemetry.
+From IastRw Require Import Ast Generated Config Model HookSites WfTree P_Telemetry P_Count P_CountGlobal.
 
 (** With verbosity off the count stays zero and no breakdown is accumulated. *)
 Theorem C15_off_counts_nothing : forall st tag t,
@@ -26,3 +26,54 @@ Theorem C15_instrumented_operation_counted_once : forall v tag t,
   t_tags t' = (match v, tag with VDebug, Some g => g :: t_tags t | _, _ => t_tags t end).
 Proof. exact update_status_modified. Qed.
 Print Assumptions C15_instrumented_operation_counted_once.
+
+(** ** Every instrumented operation adds exactly one reference to the hook namespace
+    ([ns_count]: the number of identifiers [_ddiast] in a tree), whatever the operands, the
+    accumulated state and the configuration. *)
+Theorem C15_binary_adds_one_reference : forall c lo hi opn l r p out p',
+  ident_clean l -> ident_clean r ->
+  binary_transform c (Node (K KBin lo hi) [opn; l; r]) p = (Some out, p') ->
+  ns_count out = 1 + ns_count (Node (K KBin lo hi) [opn; l; r]).
+Proof. exact binary_transform_ns. Qed.
+Print Assumptions C15_binary_adds_one_reference.
+
+Theorem C15_template_adds_one_reference : forall c e p out p',
+  template_transform c e p = (Some out, p') -> ns_count out = 1 + ns_count e.
+Proof. exact template_transform_ns. Qed.
+Print Assumptions C15_template_adds_one_reference.
+
+Theorem C15_call_adds_one_reference : forall c lo hi cx callee args targs p out tag p',
+  call_fields_ok cx targs ->
+  (is_ident callee = true -> ns_count callee = 0) ->
+  call_transform c (Node (K KCall lo hi) [cx; callee; Node Lst args; targs]) p = (Some (out, tag), p') ->
+  ns_count out = 1 + ns_count (Node (K KCall lo hi) [cx; callee; Node Lst args; targs]).
+Proof. exact call_transform_ns. Qed.
+Print Assumptions C15_call_adds_one_reference.
+
+Theorem C15_compound_assignment_adds_one_reference : forall c lo hi opn lhs rhs p out p',
+  ns_count opn = 0 -> ident_clean rhs ->
+  (forall lhs' hoisted p0, hoist_target c lhs (lo, hi) acc0 p = (lhs', hoisted, p0) -> ns_count lhs' = 0) ->
+  assign_transform c (Node (K KAssign lo hi) [opn; lhs; rhs]) p = (Some out, p') ->
+  ns_count out = 1 + ns_count (Node (K KAssign lo hi) [opn; lhs; rhs]).
+Proof. exact assign_transform_ns. Qed.
+Print Assumptions C15_compound_assignment_adds_one_reference.
+
+(** ** Global statement for one block region.  For every configuration whose verbosity is not OFF,
+    every fuel, and every tree of the fragment without optional chaining that satisfies the shape
+    conditions [wf_all] (checked on every parsed input by the check) and does not mention the hook
+    namespace: whatever the operation visitor returns, the count has moved by exactly the number of
+    hook references now in the tree, and the file is not cancelled. *)
+Theorem C15_count_equals_references_emitted : forall c, c_verbosity c <> VOff ->
+  forall fuel root n s n' s',
+    op_visit c fuel root n s = Some (n', s') ->
+    wf_all n = true /\ ns_count n = 0 ->
+    t_status (o_t s) <> Cancelled ->
+    (N.of_nat (ns_count n') + t_count (o_t s) = t_count (o_t s'))%N /\ t_status (o_t s') <> Cancelled.
+Proof. exact op_visit_count. Qed.
+Print Assumptions C15_count_equals_references_emitted.
+
+(** The names registered for declaration are always temporaries' names (never the namespace). *)
+Theorem C15_registered_names_are_temporaries : forall c fuel root n s n' s',
+  op_visit c fuel root n s = Some (n', s') -> all_temp (o_p s) -> all_temp (o_p s').
+Proof. exact op_visit_temp. Qed.
+Print Assumptions C15_registered_names_are_temporaries.
